@@ -1680,17 +1680,22 @@ func c02r8(p *Program, r *Report) {
 		doneFn[fi] = true
 		g := p.GraphOf(fi)
 		info := g.Info
-		facts := g.GuardFactsPS()
+		type trimLoop struct {
+			loop   *ast.ForStmt
+			lo, hi map[string]bool
+			drops  []ast.Node
+			stops  []ast.Node
+		}
+		var loops []*trimLoop
 		ast.Inspect(fi.Decl.Body, func(x ast.Node) bool {
 			loop, ok := x.(*ast.ForStmt)
 			if !ok {
 				return true
 			}
 			// the two leading bytes and the statements that drop the first of them:
-			//  A: an index i walks the slice: bytes X[i], X[i+1], dropped by an i++ in the body
+			//  A: an index i walks the slice: bytes X[i], X[i+1], dropped by an i++ (in the body or as the post statement)
 			//  B: the slice itself is shortened: bytes P[0], P[1], dropped by P = P[1:]
-			lo, hi := map[string]bool{}, map[string]bool{}
-			var drops []ast.Stmt
+			tl := &trimLoop{loop: loop, lo: map[string]bool{}, hi: map[string]bool{}}
 			if inc, isInc := loop.Post.(*ast.IncDecStmt); isInc && inc.Tok == token.INC {
 				iv := exprStr(inc.X)
 				ast.Inspect(loop.Body, func(y ast.Node) bool {
@@ -1698,17 +1703,20 @@ func c02r8(p *Program, r *Report) {
 					case *ast.IndexExpr:
 						switch strings.ReplaceAll(exprStr(z.Index), " ", "") {
 						case iv:
-							lo[exprStr(z)] = true
+							tl.lo[exprStr(z)] = true
 						case iv + "+1":
-							hi[exprStr(z)] = true
+							tl.hi[exprStr(z)] = true
 						}
 					case *ast.IncDecStmt:
 						if z.Tok == token.INC && exprStr(z.X) == iv {
-							drops = append(drops, z)
+							tl.drops = append(tl.drops, z)
 						}
 					}
 					return true
 				})
+				if len(tl.lo) > 0 && len(tl.hi) > 0 {
+					tl.drops = append(tl.drops, inc) // falling through the body drops the byte, too
+				}
 			} else {
 				ast.Inspect(loop.Body, func(y ast.Node) bool {
 					as, isAs := y.(*ast.AssignStmt)
@@ -1726,12 +1734,12 @@ func c02r8(p *Program, r *Report) {
 						return true
 					}
 					pn := exprStr(as.Lhs[0])
-					lo[pn+"[0]"], hi[pn+"[1]"] = true, true
-					drops = append(drops, as)
+					tl.lo[pn+"[0]"], tl.hi[pn+"[1]"] = true, true
+					tl.drops = append(tl.drops, as)
 					return true
 				})
 			}
-			if len(lo) == 0 || len(hi) == 0 {
+			if len(tl.lo) == 0 || len(tl.hi) == 0 || len(tl.drops) == 0 {
 				return true
 			}
 			// locals bound to those bytes
@@ -1742,73 +1750,167 @@ func c02r8(p *Program, r *Report) {
 				}
 				for k, rhs := range as.Rhs {
 					switch {
-					case lo[exprStr(ast.Unparen(rhs))]:
-						lo[exprStr(as.Lhs[k])] = true
-					case hi[exprStr(ast.Unparen(rhs))]:
-						hi[exprStr(as.Lhs[k])] = true
+					case tl.lo[exprStr(ast.Unparen(rhs))]:
+						tl.lo[exprStr(as.Lhs[k])] = true
+					case tl.hi[exprStr(ast.Unparen(rhs))]:
+						tl.hi[exprStr(as.Lhs[k])] = true
 					}
 				}
 				return true
 			})
-			if len(drops) == 0 {
+			// the stops: break statements that leave this loop
+			ast.Inspect(loop.Body, func(y ast.Node) bool {
+				br, ok := y.(*ast.BranchStmt)
+				if !ok || br.Tok != token.BREAK || br.Label != nil {
+					return true
+				}
+				inner := p.enclosing(br, fi.Decl, func(m ast.Node) bool {
+					switch m.(type) {
+					case *ast.ForStmt, *ast.RangeStmt, *ast.SwitchStmt, *ast.TypeSwitchStmt, *ast.SelectStmt:
+						return true
+					}
+					return false
+				})
+				if inner == ast.Node(loop) {
+					tl.stops = append(tl.stops, br)
+				}
+				return true
+			})
+			loops = append(loops, tl)
+			return true
+		})
+		if len(loops) == 0 {
+			continue
+		}
+		// every drop leaves a mark in the guard facts, so that a stop reached after a drop in the same iteration is
+		// judged on the byte that is then the first one
+		g.markNodes = map[ast.Node]string{}
+		g.unmarkNodes = map[ast.Node]string{}
+		for _, tl := range loops {
+			if tl.loop.Cond != nil {
+				g.unmarkNodes[tl.loop.Cond] = "dropped" // a new iteration starts
+			}
+			for _, d := range tl.drops {
+				if d != ast.Node(tl.loop.Post) {
+					g.markNodes[d] = "dropped"
+				}
+			}
+		}
+		g.factsCache, g.factsPSCache = nil, nil
+		// only what is known about the two bytes (and the drop marks) matters
+		var names []string
+		for _, tl := range loops {
+			for nm := range tl.lo {
+				names = append(names, nm)
+			}
+			for nm := range tl.hi {
+				names = append(names, nm)
+			}
+		}
+		facts := g.GuardFactsPSAbout(func(atom string) bool {
+			if strings.HasPrefix(atom, "§") {
 				return true
 			}
+			for _, nm := range names {
+				if mentions(atom, nm) || strings.Contains(atom, nm) {
+					return true
+				}
+			}
+			// named conditions over the bytes (booleans tested by the loop)
+			return !strings.Contains(atom, " ") && !strings.Contains(atom, ".")
+		})
+		g.markNodes, g.unmarkNodes = nil, nil
+		g.factsCache, g.factsPSCache = nil, nil
+		for _, tl := range loops {
 			found++
+			var loN, hiN string
+			for l := range tl.lo {
+				loN = l
+			}
+			for h := range tl.hi {
+				hiN = h
+			}
+			type byteView struct{ zero, ff, notZero, notFF, topClear, topSet bool }
+			view := func(fv map[string]bool, names map[string]bool) byteView {
+				var v byteView
+				isTrue := func(keys ...string) bool {
+					for _, k := range keys {
+						if x, ok := fv[k]; ok && x {
+							return true
+						}
+					}
+					return false
+				}
+				isFalse := func(keys ...string) bool {
+					for _, k := range keys {
+						if x, ok := fv[k]; ok && !x {
+							return true
+						}
+					}
+					return false
+				}
+				for nm := range names {
+					nm = strings.ReplaceAll(nm, " ", "")
+					v.zero = v.zero || isTrue(nm+"==0")
+					v.ff = v.ff || isTrue(nm+"==255")
+					v.topClear = v.topClear || isTrue(nm+"&128==0", nm+"<128") || isFalse("0<"+nm+"&128", "127<"+nm)
+					v.topSet = v.topSet || isTrue("0<"+nm+"&128", nm+"&128==128", "127<"+nm, "128<"+nm) || isFalse(nm+"&128==0", nm+"<128")
+					v.notZero = v.notZero || isFalse(nm+"==0") || isTrue("0<"+nm)
+					v.notFF = v.notFF || isFalse(nm+"==255") || isTrue(nm+"<255")
+				}
+				v.topClear = v.topClear || v.zero
+				v.topSet = v.topSet || v.ff
+				v.notZero = v.notZero || v.topSet || v.ff
+				v.notFF = v.notFF || v.topClear || v.zero
+				return v
+			}
 			n := 0
-			for _, st := range drops {
+			for _, st := range tl.drops {
 				n++
 				ps, _ := facts.Before(st)
 				okAll := len(ps) > 0
 				desc := ""
-				var loN, hiN string
-				for l := range lo {
-					loN = l
-				}
-				for h := range hi {
-					hiN = h
-				}
 				for _, f := range ps {
 					fv := foldedView(f)
 					if os.Getenv("DBGC02") != "" {
-						fmt.Fprintln(os.Stderr, "C02.R8 disjunct at", p.Pos(st), factsKey(f), "folded:", fv)
+						fmt.Fprintln(os.Stderr, "C02.R8 drop disjunct at", p.Pos(st), factsKey(f), "folded:", fv)
 					}
-					isTrue := func(keys ...string) bool {
-						for _, k := range keys {
-							if v, ok := fv[k]; ok && v {
-								return true
-							}
-						}
-						return false
-					}
-					isFalse := func(keys ...string) bool {
-						for _, k := range keys {
-							if v, ok := fv[k]; ok && !v {
-								return true
-							}
-						}
-						return false
-					}
-					zero, ff, topClear, topSet := false, false, false, false
-					for l := range lo {
-						l = strings.ReplaceAll(l, " ", "")
-						zero = zero || isTrue(l+"==0")
-						ff = ff || isTrue(l+"==255")
-					}
-					for h := range hi {
-						h = strings.ReplaceAll(h, " ", "")
-						topClear = topClear || isTrue(h+"&128==0", h+"<128") || isFalse("0<"+h+"&128", "127<"+h)
-						topSet = topSet || isTrue("0<"+h+"&128", h+"&128==128", "127<"+h) || isFalse(h+"&128==0", h+"<128")
-					}
-					if !(zero && topClear || ff && topSet) {
+					lo, hi := view(fv, tl.lo), view(fv, tl.hi)
+					if !(lo.zero && hi.topClear || lo.ff && hi.topSet) {
 						okAll = false
 					}
-					desc += fmt.Sprintf("[zero=%v ff=%v topClear=%v topSet=%v] ", zero, ff, topClear, topSet)
+					desc += fmt.Sprintf("[zero=%v ff=%v topClear=%v topSet=%v] ", lo.zero, lo.ff, hi.topClear, hi.topSet)
 				}
 				r.Check(okAll, st, fmt.Sprintf("%s: leading byte skipped at %s only when redundant #%d", fi.Name, p.Pos(st), n), "0x00 before a byte with the top bit clear, or 0xFF before a byte with the top bit set, on every path to the drop",
-					fmt.Sprintf("a leading byte is dropped under a condition that does not establish (%s == 0x00 and %s < 0x80) or (%s == 0xFF and %s >= 0x80): known on the paths here: %s. A sign byte that is needed is removed (e.g. -129 = ff 7f becomes 7f = 127) or a redundant one is kept", loN, hiN, loN, hiN, desc))
+					fmt.Sprintf("a leading byte is dropped under a condition that does not establish (%s == 0x00 and %s < 0x80) or (%s == 0xFF and %s >= 0x80): known on the paths here: %s. A sign byte that is needed is removed (e.g. -129 = ff 7f becomes 7f = 127)", loN, hiN, loN, hiN, desc))
 			}
-			return true
-		})
+			for _, st := range tl.stops {
+				n++
+				ps, _ := facts.Before(st)
+				okAll := len(ps) > 0
+				desc := ""
+				for _, f := range ps {
+					fv := foldedView(f)
+					if os.Getenv("DBGC02") != "" {
+						fmt.Fprintln(os.Stderr, "C02.R8 stop disjunct at", p.Pos(st), factsKey(f), "folded:", fv)
+					}
+					lo, hi := view(fv, tl.lo), view(fv, tl.hi)
+					okD := false
+					if f.m["§dropped"] {
+						// the byte that was second is now first: it must not look like padding itself
+						okD = hi.notZero && hi.notFF
+					} else {
+						okD = lo.notZero && lo.notFF || lo.zero && hi.topSet || lo.ff && hi.topClear
+					}
+					if !okD {
+						okAll = false
+					}
+					desc += fmt.Sprintf("[dropped=%v first: zero=%v ff=%v notZero=%v notFF=%v second: topClear=%v topSet=%v notZero=%v notFF=%v] ", f.m["§dropped"], lo.zero, lo.ff, lo.notZero, lo.notFF, hi.topClear, hi.topSet, hi.notZero, hi.notFF)
+				}
+				r.Check(okAll, st, fmt.Sprintf("%s: trimming stops at %s only at a byte that is needed", fi.Name, p.Pos(st)), "the first remaining byte is not redundant on every path to the stop",
+					fmt.Sprintf("the trimming stops although the leading byte can still be redundant (0x00 before a byte < 0x80, or 0xFF before a byte >= 0x80): known on the paths here: %s. The encoding is not minimal (e.g. -128 stays ff 80), so it differs from what Cassandra and big.Int produce and from what unmarshal expects back", desc))
+			}
+		}
 	}
 	if found == 0 {
 		r.Unresolved("marshalVarint: the leading-byte trimming loop (bytes at i and i+1) was not found in marshalVarint or its helpers")
